@@ -1,3 +1,5 @@
+import math
+
 from excel2pycl.src.cell import Cell
 from excel2pycl.src.context import Context
 from excel2pycl.src.excel import Excel
@@ -40,6 +42,9 @@ class CellTranslator(AbstractTranslator):
                     context.finish_cell(cell_uid)
             else:
                 code = repr(cell.value) if cell.value is not None else 'self.EmptyCell()'
+                if isinstance(cell.value, float) and not math.isfinite(cell.value):
+                    # repr() of an infinity or a NaN (a stored number beyond the doubles) is a name, not a literal
+                    code = f'float({repr(str(cell.value))})'
             context.set_cell(cell, code)
         return cell, excel, context
 
